@@ -1,5 +1,6 @@
 import GV.Driver.Util
 import GV.Model.Proto
+import GV.Model.ErrorVal
 /- Driver: enumerate the interleavings the protocol model allows for a given stimulus and report the set of
    observable outcomes (Stream's result class, the first Error() result class). -/
 namespace GV.D
@@ -72,5 +73,9 @@ def handleProto (a : Args) : String :=
   let finals := explore st [⟨init, 0, 0, 0⟩] [] []
   let outs := (finals.map showOutcome).eraseDups
   "outcomes=" ++ String.intercalate "|" outs
+
+/-- the text Error() must print for an ERR packet -/
+def handleErrPkt (a : Args) : String :=
+  "model=" ++ toHex (GV.M.errPacketError (argNat a "code") (argHex a "msg")).errorString
 
 end GV.D
